@@ -803,6 +803,10 @@ static void* reb_simulation_integrate_raw(void* args){
 
     if (thread_info->tmax != r->t){
         int dt_sign = (thread_info->tmax > r->t) ? 1.0 : -1.0; // determine integration direction
+        if (copysign(1., r->dt) != dt_sign){
+            // Direction is reversed: complete any pending half step with the old timestep first.
+            reb_simulation_synchronize(r);
+        }
         r->dt = copysign(r->dt, dt_sign);
     }
 
